@@ -30,6 +30,8 @@ class ExportConfigRust(ExportConfig):
     
     def _parse_scalar(self, param, value):
         if isinstance(param, StringType):
+            # escape characters that would end or alter a string literal
+            value = str(value).replace("\\","\\\\").replace("\"","\\\"")
             value = f"\"{value}\""
         elif isinstance(param, BooleanType):
             value = "true" if value else "false"
